@@ -8,6 +8,9 @@ import RisorModel.C03.Model
   registers at both ends, G = `P` | `s:e` (GetLineText) and F = `P` | `pad:n` (FriendlyErrorMessage)
 * `ast <prefix tokens>` → `clean` | `nil <slot>`
 * `vm <op*count,…>` → `ok <sp> <fp>` | `recovered <why>`
+* `enter <run|call|thread> <ops:<op*count,…> | panic | return>` → `value` | `error <why>` |
+  `killed <why>`: outcome for the process of a body run under that entry (Impl: all three
+  recover scopes present); `ops:` bodies run on a fresh VM (`Vm.init`)
 * `inspect <heap> <value>` → `ok <hex of the rendering>` | `nofuel`
 * `equals <heap> <a> <b>` → `t|f|overflow` then `ranked=<bool>` -/
 namespace Risor.C03
@@ -107,6 +110,25 @@ def handle : List String → String
       match vmRun Vm.init l with
       | .ok s => s!"ok\t{s.sp}\t{s.fp}"
       | .recovered w => "recovered\t" ++ w
+  | ["enter", entry, body] =>
+    let e : Option Entry := match entry with
+      | "run" => some .run
+      | "call" => some .call
+      | "thread" => some .thread
+      | _ => none
+    let b : Option Body :=
+      if body = "panic" then some (.panics "go panic")
+      else if body = "return" then some .returns
+      else if body.startsWith "ops:" then
+        (parseVmOps (body.drop 4).toString).map fun l => Body.ofVm (vmRun Vm.init l)
+      else none
+    match e, b with
+    | some e, some b =>
+      match enterImpl e b with
+      | .value => "value"
+      | .error w => "error\t" ++ w
+      | .killed w => "killed\t" ++ w
+    | _, _ => "error?\tbad-enter"
   | ["inspect", heap, v] =>
     match parseHeap heap, parseVal v with
     | some h, some v =>
